@@ -129,6 +129,7 @@ ops_src.CALLS["HTMLTextDocument_static_extract"] = lambda a: _doc()._static_extr
 ops_src.CALLS["HTMLTextDocument_extract"] = _extract
 ops_src.CALLS["HTMLTextDocument_init"] = _init
 ops_src.CALLS["TagList_render"] = lambda a: a[0].render()
+ops_src.CALLS["HTMLDependency_serialize"] = lambda a: type(a[0]).serialize_to_script_json(a[0], a[1])
 ops_src.CALLS["HTMLTextDocument_render"] = lambda a: _doc().render(a[0], lib_prefix=a[1], include_version=a[2])
 
 
